@@ -54,6 +54,7 @@ func (w *World) sameValue(a, b ssa.Value) bool {
 // derefsParam reports whether fn may dereference its parameter idx on a path with no
 // dominating nil check. Interprocedural (static callees inside the module), depth-bounded.
 func (w *World) derefsParam(fn *ssa.Function, idx int, depth int, seen map[string]bool) *nilSite {
+	defer w.noCtx()()
 	if fn == nil || fn.Blocks == nil || idx >= len(fn.Params) || depth > 8 {
 		return nil
 	}
@@ -133,6 +134,7 @@ func (w *World) derefsParam(fn *ssa.Function, idx int, depth int, seen map[strin
 
 // mayReturnNil reports whether fn (pointer result) has a return path yielding nil.
 func (w *World) mayReturnNil(fn *ssa.Function) bool {
+	defer w.noCtx()()
 	if fn == nil || fn.Blocks == nil {
 		return false
 	}
@@ -151,6 +153,7 @@ func (w *World) mayReturnNil(fn *ssa.Function) bool {
 }
 
 func (w *World) valueMayBeNil(v ssa.Value, depth int) bool {
+	defer w.noCtx()()
 	if depth > 6 {
 		return false
 	}
